@@ -103,6 +103,7 @@ class ListV(object):
         self.oid = fresh_oid()
         self.cls = cls
         self.prefix = prefix
+        self.view = None        # (base sequence, k): the prefix is the first k elements of base, 0 <= k <= len(base)
 
     def __repr__(self):
         return "<ListV#%d %r%s>" % (self.oid, self.items, "+prefix" if self.prefix is not None else "")
